@@ -338,9 +338,11 @@ class ExpressionParser:
                     old_args.append(arg)
 
             # replace names of old expression arguments with new variable symbols
+            # (argument by argument: an algebraic substitution would also rewrite OTHER arguments that merely contain a
+            # replaced sub-expression, e.g. `-a - b -> s` turns the argument `a + b + r` into `r - s`)
             replacements = {old: new for old, new in zip(old_args, func_args) if old != new}
             if replacements:
-                expr = replace_in_expr(expr, replacements)
+                expr = expr.func(*[replacements.get(arg, arg) for arg in expr.args])
 
             # collect backend-specific function override for this operation, if any
             label = expr.func.__name__
